@@ -119,7 +119,7 @@ def run_cases(unit_name, cases, opts, world=None):
                 rp = {'status': 'replay-error', 'error': f'{type(ex).__name__}: {ex}', 'trace': traceback.format_exc(limit=6)}
             if rp is None:
                 rp = {'status': 'no-replay', 'reason': 'no function-level replay defined for this contract'}
-            if o.extra.get('needs_validation') and rp.get('status') != 'reproduced':
+            if (o.extra.get('needs_validation') or (getattr(case, 'validate_refutations', False) and '/ensures.' in o.name)) and rp.get('status') != 'reproduced':
                 o.result = 'unknown'; o.backend = (o.backend or '') + ' candidate model not reproduced'
                 continue
             if rp.get('status') != 'reproduced' and getattr(case, 'e2e', None) is not None:
